@@ -192,6 +192,9 @@ slot_base::operator=(const slot_base& src)
   }
 
   auto new_rep_ = src.rep_->clone();
+  // Copy blocked_ now. Deleting the old slot_rep may delete src,
+  // if the functor in the old slot_rep owns src.
+  blocked_ = src.blocked_;
 
   if (rep_) // Silently exchange the slot_rep.
   {
@@ -200,7 +203,6 @@ slot_base::operator=(const slot_base& src)
   }
 
   rep_ = new_rep_;
-  blocked_ = src.blocked_;
 
   return *this;
 }
